@@ -13,7 +13,8 @@ RULE = ("a forest of seeded And/Or/When trees (depth <= 3) over all built-in pri
         "interrupts), together with a twin rebuilt from type()/state(); non-trivial = >1 _Step; distinct = trace digests")
 ASSUMPTIONS = ["'documented inequality' = docstring summary + formula read together; NCOG's eta guard band, CRT with nPop<2 or inf-inf, "
                "NormalizedCostTarget with an increasing history are don't-cares",
-               "GradientNormTolerance is excluded (needs a gradient / calls the raw cost)",
+               "GradientNormTolerance is evaluated in the harness-only forest (not installed in the solver): its reference is the forward-difference "
+               "gradient of the raw cost at the current best; a norm within 1e-9 of the tolerance is undecided",
                "histories are those that simulated solvers reach, not arbitrary sequences (that would be input generation)"]
 REAL = ["mystic.termination (all primitives, And/Or/When, state, type)", "mystic solvers producing the histories"]
 STUB = ["cost/constraint/penalty/callback peers", "three simulated clocks", "signal/tty"]
@@ -27,7 +28,16 @@ def gen_plan(seed, tier):
     plan = solverplan.gen_solver_plan(seed, tier, ID, c05.KNOBS)
     plan = c05.decorate(plan, seed, p_clock=0.7, p_int=0.4)
     rng = sub_rng(seed, 'plan.c10')
-    plan['forest'] = [gen.gen_term_tree(rng, plan['solver']) for _ in range(rng.randint(2, 6))]
+    plan['forest'] = [gen.gen_term_tree(rng, plan['solver'], gnt=True) for _ in range(rng.randint(2, 6))]
+    # the objective is replaced in mid-run (same dimension): a condition that looks at the objective (GradientNormTolerance)
+    # has to look at the one in force
+    if rng.random() < 0.3 and not isinstance(plan['cost']['params'].get('parts'), list):
+        runs = [i for i, o in enumerate(plan['ops']) if o['op'] in ('step', 'solve')]
+        if runs:
+            at = rng.choice(runs) + 1
+            plan['ops'].insert(at, {'op': 'set', 'what': 'objective',
+                                    'arg': gen.gen_cost(rng, plan['dim'], ['quad', 'quad', 'abs', 'rosen', 'maxabs'])})
+            plan['ops'].insert(at + 1, {'op': 'step', 'n': rng.randint(1, 3)})
     return plan
 
 def run_plan(plan):
